@@ -64,16 +64,25 @@ def build_groups(rng, tier):
             allow_zero = False
             qrank = rng.choice([1, 1, 2])
         qshape = qshape_for(rng, qrank, allow_zero)
+        # results of 13 and more axes (seed C18-r7m1: the dynamic result shape collected into a fixed array of 12 entries): dynamic data of
+        # 8..9 axes queried with dynamic arrays of 5..6 axes, most axes of length 1
+        bigrank = (not forced) and rng.random() < 0.06
+        if bigrank:
+            drank = rng.choice([8, 9, 10])
+            trailing = [rng.choice([1, 1, 1, 2]) for _ in range(drank - k)]
+            trailing[-1] = 2
+            qrank = rng.choice([5, 6])
+            qshape = [rng.choice([1, 1, 2]) for _ in range(qrank)]
         if forced:
             qshape[0] = 3
         want_oob = (not forced) and (not two_d) and rng.random() < 0.3
         if want_oob and rng.random() < 0.6:
             qrank, qshape = 1, [3]      # the static rank-1 fast path with the rejected element in front of accepted ones
         dtag = "sta" if drank <= 6 and rng.random() < 0.7 else "dyn"
-        qtag = "sta" if rng.random() < 0.7 else "dyn"
+        qtag = "sta" if rng.random() < 0.7 and not bigrank else "dyn"
         if want_oob and qshape == [3]:
             qtag = "sta" if rng.random() < 0.8 else "dyn"
-        if qtag == "dyn" and qrank > 3:
+        if qtag == "dyn" and qrank > 3 and not bigrank:
             qshape = qshape[:3]
         nq = gen.shape_size(qshape)
         if two_d:
